@@ -328,6 +328,30 @@ struct FactorBox : Box {
     }
 };
 
+// ---- independent values (C18: "independent big integers, rationals and fixed-precision integers may likewise be operated on
+//      concurrently"): no domain state at all; every thread computes on its own objects ----
+struct ValueBox : Box {
+    int par;
+    explicit ValueBox(int i) : par(i) {}
+    Box* copy() const override { return new ValueBox(*this); }
+    void assign(const Box& o) override { par = static_cast<const ValueBox&>(o).par; }
+    void selfassign() override {}
+    std::string probe() const override {
+        std::ostringstream os;
+        Integer a(par ? "340282366920938463463374607431768211507" : "123456789012345678901234567"), b(a * a + 7), g, u, v;
+        gcd(g, u, v, a, b);
+        os << (b % a) << ' ' << g << ' ' << pow(a, (uint64_t)5) % b << ' ' << (a << 70) / 3 << ' ' << sqrt(b) << ' ';
+        Integer::mod(g, -b, a); os << g << ' ' << isperfectpower(a) << ' ' << a.bitsize() << ' ';
+        Rational r(a, b), s(Integer(-5), Integer(6)), t;
+        t = r * s + s / r - r; os << t << ' ' << (t < s) << ' ' << floor(t) << ' ' << Rational(0.375) << ' ';
+        RecInt::ruint<7> x(par ? 4294967291u : 101u), y(12345u), z;
+        z = x * y + x; z <<= 37; z = z / y; os << z << ' ' << (z % x) << ' ';
+        RecInt::rint<6> m(-77), n(13); os << (m * n) << ' ' << (m / n);
+        return os.str();
+    }
+    std::string xprobe(const Box&) const override { return ""; }
+};
+
 typedef std::function<Box*(int)> Maker;   // argument: parameter set 0 or 1
 
 // process-wide mode a kind is run in (documented global state of the library, not a property of the object)
@@ -371,6 +395,7 @@ inline const std::map<std::string, Maker>& kinds() {
             for (int j = 0; j < n; ++j) { base.init(e, Integer(c[j])); irr[size_t(j)] = e; }
             return new RingBox<E>(pd, irr); }},
         {"Poly1Dom_Modular_int32", [](int i) -> Box* { return new PolyBox(i ? 65521 : 101); }},
+        {"Values_Integer_Rational_RecInt", [](int i) -> Box* { return new ValueBox(i); }},
         {"IntRNSsystem", [](int i) -> Box* { return new IntRnsBox(i); }},
         {"RNSsystem_Modular_int32", [](int i) -> Box* { return new RnsBox(i); }},
         {"Poly1FactorDom_Modular_int32", [](int i) -> Box* { return new FactorBox(i); }},
